@@ -8,7 +8,7 @@ CONSTANTS
   MaxAligned = 2
   ItemMode = "none"
   MaxItems = 0
-  Addrs = {"4096"}
+  Addrs = {"4096", "4100"}
   Grows = {1, 2}
   Lates = FALSE
   AddAligns = {}
